@@ -139,6 +139,7 @@ fn guarded_line(op: &str, input: &[u8]) -> (String, Result<(), String>) {
         Outcome::Value(v) => (v, Ok(())),
         Outcome::Panic(p) => ("PANIC".into(), Err(format!("{op} panicked: {p}"))),
         Outcome::Abort(a) => ("ABORT".into(), Err(format!("{op} aborted the process ({a})"))),
+        Outcome::Hang => ("HANG".into(), Err(format!("{op} did not return"))),
     }
 }
 
